@@ -161,6 +161,7 @@ def hist_unit(u, res):
     return res
 
 
+@symnp.outside_session
 def replay(h, a, b, fv=None):
     """the same history with ordinary arrays on the compiled code"""
     n = geometries.natom_super(GID, SID)
